@@ -731,4 +731,25 @@ Proof. intros Hcf. cbn zeta. rewrite run_state_eq. cbn [tA tB].
   destruct (crash_cases_nc s ae k Hcf) as [(j & -> & -> & _)|(-> & -> & _)]; [|auto].
   exact (prefix_perpath s j Hcf x). Qed.
 
+
+Lemma data_steps_trees s : (forall p d, cname p d <> p) ->
+  fA (exec_all (fs_of s) (data_steps s)) = tA (run_state s) /\
+  fB (exec_all (fs_of s) (data_steps s)) = tB (run_state s).
+Proof. intros Hcn. rewrite data_steps_blocks, exec_blocks, run_state_eq. cbn [tA tB].
+  destruct (blocks_fs_proj (fs_of s) (data_blocks s)) as (E & _). cbn [fs_of fA fB] in E.
+  rewrite data_blocks_trees in E by exact Hcn. injection E as -> ->. auto. Qed.
+
+
+Lemma archive_after_data_full s ae k :
+  let f := crash s ae k in
+  farch f = arch (run_state s) -> arch (run_state s) <> arch s ->
+  length (data_steps s) + (if ae then 5 else 4) <= k /\
+  take (length (data_steps s)) (bisync_steps s ae) = data_steps s /\
+  gA f = ∅ /\ gB f = ∅ /\
+  ((forall p d, cname p d <> p) -> fA f = tA (run_state s) /\ fB f = tB (run_state s)).
+Proof. cbn zeta. intros Hnew Hne.
+  destruct (archive_after_data_lemma s ae k Hnew Hne) as (A & B & C & E & F).
+  split; [exact A|]. split; [rewrite bisync_steps_eq; apply take_app|]. split; [exact E|]. split; [exact F|].
+  intros Hcn. destruct (data_steps_trees s Hcn) as [<- <-]. auto. Qed.
+
 End P.
